@@ -79,6 +79,105 @@ def C09_default_deny_dropped():
     finally:
         shutil.rmtree(d)
 
+
+# ---------------------------------------------------------------- server protocol witnesses
+class FakeTransport:
+    def __init__(self, peer=("192.0.2.1", 5555)):
+        self.writes = []; self.closed = False; self.post_close_writes = []; self.peer = peer
+    def write(self, b):
+        (self.post_close_writes if self.closed else self.writes).append(bytes(b))
+    def close(self): self.closed = True
+    def is_closing(self): return self.closed
+    def get_extra_info(self, name, default=None):
+        return self.peer if name == "peername" else default
+    def wire(self): return b"".join(self.writes)
+
+def _drive(handler, chunks, middleware=None, upload=None, settle=3):
+    from nauyaca.server.protocol import GeminiServerProtocol
+    async def go():
+        p = GeminiServerProtocol(handler, middleware, upload)
+        t = FakeTransport(); p.connection_made(t)
+        err = None
+        try:
+            for c in chunks:
+                p.data_received(c)
+                for _ in range(settle): await asyncio.sleep(0)
+        except Exception as e:
+            err = e
+        for _ in range(settle): await asyncio.sleep(0)
+        if p.timeout_handle: p.timeout_handle.cancel()
+        return t, p, err
+    return asyncio.run(go())
+
+def _wellformed(wire):
+    """one header line `dd meta\\r\\n`, status 10..69, meta <=1024 bytes w/o CR LF, body only for 2x"""
+    i = wire.find(b"\r\n")
+    if i < 0: return False
+    h, body = wire[:i], wire[i + 2:]
+    if len(h) < 3 or not h[:2].isdigit() or h[2:3] != b" ": return False
+    st, meta = int(h[:2]), h[3:]
+    if not 10 <= st <= 69 or b"\n" in meta or b"\r" in meta or len(meta) > 1024: return False
+    return st // 10 == 2 or body == b""
+
+@witness
+def C01_bare_lf_in_meta():
+    from nauyaca.protocol.response import GeminiResponse
+    t, p, err = _drive(lambda r: GeminiResponse(20, "text/plain", "x"), [b"foo\nbar\r\n"])
+    return not _wellformed(t.wire())
+
+@witness
+def C01_body_after_non2x():
+    from nauyaca.protocol.response import GeminiResponse
+    t, p, err = _drive(lambda r: GeminiResponse(51, "text/gemini", "# not found"), [b"gemini://h/\r\n"])
+    return not _wellformed(t.wire())
+
+@witness
+def C01_bad_status_and_long_meta():
+    from nauyaca.protocol.response import GeminiResponse
+    t1, _, _ = _drive(lambda r: GeminiResponse(99, "x"), [b"gemini://h/\r\n"])
+    t2, _, _ = _drive(lambda r: GeminiResponse(20, "a" * 2000, "b"), [b"gemini://h/\r\n"])
+    return not _wellformed(t1.wire()) or not _wellformed(t2.wire())
+
+@witness
+def C01_half_response_on_unencodable_body():
+    from nauyaca.protocol.response import GeminiResponse
+    async def h(r): return GeminiResponse(20, "text/gemini", "=> /\udcff name")
+    t, p, err = _drive(lambda r: h(r), [b"gemini://h/\r\n"])
+    w = t.wire()
+    return w.count(b"\r\n") > 1 and w.startswith(b"20 ") and b"40 " in w or not t.closed or err is not None
+
+@witness
+def C01_C15_middleware_deny_without_text_hangs():
+    from nauyaca.protocol.response import GeminiResponse
+    class MW:
+        async def process_request(self, url, ip, fp=None): return False, None
+    t, p, err = _drive(lambda r: GeminiResponse(20, "text/plain", "x"), [b"gemini://h/\r\n"], middleware=MW())
+    return t.wire() == b"" and not t.closed and p.timeout_handle is None
+
+@witness
+def C07_titan_redispatch():
+    from nauyaca.protocol.response import GeminiResponse
+    calls = []
+    class Up:
+        async def handle_upload(self, req):
+            calls.append(req.content); await asyncio.sleep(0); await asyncio.sleep(0); await asyncio.sleep(0); await asyncio.sleep(0)
+            return GeminiResponse(20, "text/gemini", "ok")
+    t, p, err = _drive(lambda r: GeminiResponse(20, "text/plain", "x"), [b"titan://h/f;size=3\r\nabc", b"x", b"y"], upload=Up(), settle=1)
+    return len(calls) > 1
+
+@witness
+def C04_titan_bypasses_middleware():
+    from nauyaca.protocol.response import GeminiResponse
+    calls = []
+    class Up:
+        async def handle_upload(self, req):
+            calls.append(req.content); return GeminiResponse(20, "text/gemini", "ok")
+    class DenyAll:
+        async def process_request(self, url, ip, fp=None): return False, "53 Access denied\r\n"
+    t, p, err = _drive(lambda r: GeminiResponse(20, "text/plain", "x"), [b"titan://h/f;size=3\r\nabc"], middleware=DenyAll(), upload=Up())
+    return len(calls) > 0
+
+# MAIN
 if __name__ == "__main__":
     names = sys.argv[1:] or sorted(W)
     for n in names:
